@@ -23,6 +23,7 @@ RULE = (
     "file; each text goes through up to 21 entry points x strict in {True, False}. Non-trivial when the text has at "
     "least two parameters; distinct by canonical JSON of the segments."
 )
+EXHAUSTIVE_PART = "thorough: every truncation of nekonabe.sm (and of the first 600 boundaries of L9.ssc and Springtime.ssc) at every structural boundary x all entry points x strict"
 ASSUMPTIONS = ["msdparser.parse_msd is the tokenizer the rules are applied to", "Python's text-mode newline translation"]
 MONITORS = ["entry_point", "construction_oracle", "lenient_equals_stripped", "strict_rejects_iff_stray", "chart_from_msd"]
 REQUIRED = ["lower_case_key", "duplicate_key", "param_after_notes", "stray_before_first_param", "stray_between",
@@ -83,6 +84,25 @@ def cases(ctx):
     rng = ctx.rng
     n = ctx.split(1000 if ctx.tier == "quick" else 16 * 8000)
     corpus = corpus_texts()
+    if ctx.tier == "thorough":
+        # every truncation of nekonabe.sm, and of the first 600 boundaries of the two SSC files, at a structural
+        # boundary, through all entry points (the two blank corpus files are empty)
+        k = 0
+        for name, text in corpus:
+            seen = 0
+            for pos, ch in enumerate(text):
+                if ch in "#:;\n":
+                    seen += 1
+                    if seen > 600 and not name.startswith("nekonabe"):
+                        break
+                    for cut in (pos, pos + 1):
+                        if ctx.mine(k):
+                            t = text[:cut]
+                            if _ends_with_odd_backslashes(t):
+                                t += "x"
+                            yield {"kind": "corpus", "name": name, "text": t, "truncated_at": cut}
+                        k += 1
+        ctx.exhaustive = True
     for i in range(n):
         r = i % 10
         if r == 9:
